@@ -310,6 +310,14 @@ def generate(rng, tier, profile='default'):
         if ops[-1]['as'] in ('lazy', 'probe_elems'):
           ops[-1]['lazy_q'] = rng.choice(('tests_ok', 'corr', 'required_impact',
                                           'bbtest', 'aatest', 'dwtest'))
+        if ops[-1]['as'] == 'lazy' and rng.random() < 0.3:
+          # ... or it ASSIGNS the treatment series on the way (nested set);
+          # the control series fits either the old or the new length
+          s2 = rng.randrange(len(series))
+          ops[-1]['lazy_set_y'] = s2
+          if rng.random() < 0.5:
+            ops[-1]['s'] = rng.choice(idx_by_len[lens[s2]])
+          cur_len[o] = lens[s2]
       elif r2 < 0.33:
         ops.append({'op': 'clear_x', 'o': o})
       elif r2 < 0.42:
@@ -375,18 +383,30 @@ class LazySeries:
   current correlation while it builds the next control series): a read NESTED
   inside an assignment."""
 
-  def __init__(self, vals, target, quantity):
+  def __init__(self, vals, target, quantity, nested_set=None):
     self._vals = list(vals)
     self._target = target
     self._quantity = quantity
     self.reads = 0
+    # an ASSIGNMENT nested in the assignment: materialising the control series
+    # first replaces the treatment series of the target (a loader that
+    # delivers both series and installs the treatment side on the way)
+    self._nested_set = nested_set
+    self.set_done = None      # None: not fired; True: done; or the exception
 
   def __len__(self):
     return len(self._vals)
 
   def __array__(self, dtype=None, copy=None):
     import numpy as np  # pylint: disable=g-import-not-at-top
-    if self._target is not None:
+    if self._target is not None and self._nested_set is not None:
+      if self.set_done is None:
+        try:
+          self._target.y = np.array(self._nested_set)
+          self.set_done = True
+        except Exception as e:  # pylint: disable=broad-except
+          self.set_done = e
+    elif self._target is not None:
       try:
         getattr(self._target, self._quantity)
         self.reads += 1
@@ -479,6 +499,38 @@ class _Tracked:
     self.read_since_assign = set()
     self.cached_before_assign = False
     self.stale_opportunity = False
+
+
+_REENTRANT = {}
+
+
+def _setter_is_reentrant(tbrmmdiagnostics, tbrmmdesignparameters):
+  """Whether a series may be assigned from inside the materialisation of
+  another one being assigned (false for setters serialised by a plain lock:
+  they would wait for themselves).  Probed once per process on a scratch
+  object, in a helper thread, so that a self-deadlock is observed instead of
+  suffered."""
+  key = core.repo_root()
+  if key not in _REENTRANT:
+    import threading  # pylint: disable=g-import-not-at-top
+    done = []
+
+    def run():
+      try:
+        par = tbrmmdesignparameters.TBRMMDesignParameters(n_test=1, iroas=1.0)
+        y = [1.0, 2.0, 4.0, 3.0, 5.0, 7.0]
+        obj = tbrmmdiagnostics.TBRMMDiagnostics(list(y), par)
+        obj.x = LazySeries([2.0, 1.0, 4.0, 6.0, 5.0, 9.0], obj, None,
+                           nested_set=[v + 1 for v in y])
+      except Exception:  # pylint: disable=broad-except
+        pass        # raising is not deadlocking
+      done.append(True)
+
+    t = threading.Thread(target=run, daemon=True)
+    t.start()
+    t.join(5.0)
+    _REENTRANT[key] = bool(done)
+  return _REENTRANT[key]
 
 
 def execute(desc):
@@ -628,7 +680,13 @@ def execute(desc):
     if kind in ('set_x', 'set_y'):
       vals = series[op['s']]
       exact = None
-      if op.get('as') == 'lazy':
+      nested_y = None
+      if (op.get('as') == 'lazy' and kind == 'set_x' and
+          op.get('lazy_set_y') is not None and
+          _setter_is_reentrant(tbrmmdiagnostics, tbrmmdesignparameters)):
+        nested_y = series[op['lazy_set_y']]
+        value = LazySeries(vals, obj, None, nested_set=nested_y)
+      elif op.get('as') == 'lazy':
         value = LazySeries(vals, obj, op.get('lazy_q', 'tests_ok'))
         fault('read_nested_in_assignment')
       elif op.get('as') == 'probe_elems' and kind == 'set_x' and all(
@@ -651,6 +709,22 @@ def execute(desc):
       except Exception as e:  # pylint: disable=broad-except
         raised = e
       ProbeFraction.hook = None
+      if nested_y is not None and value.set_done is not None:
+        if value.set_done is True:
+          # the nested assignment completed first: the history is
+          # [set treatment series, set control series]
+          t.y = np.array(nested_y)
+          t.x = None
+          t.caller_x = t.caller_y = None
+          t.alias_x = t.alias_y = False
+          t.read_since_assign = set()
+          n_assign += 1
+          fault('assignment_nested_in_assignment')
+        elif not isinstance(value.set_done, ValueError):
+          stats['skipped']['assignment_failed_non_valueerror'] = 1
+          break
+        else:
+          probe('nested_assignment_refused')
       # the model: what a fresh object with the same prior series does
       f = fresh(t.y, t.x, t.pk)
       try:
@@ -946,7 +1020,9 @@ def normalize(desc):
     ops.append(op)
   d['ops'] = ops
   # drop unused series
-  used = sorted({d['init_y']} | {op['s'] for op in ops if 's' in op})
+  used = sorted({d['init_y']} | {op['s'] for op in ops if 's' in op} |
+                {op['lazy_set_y'] for op in ops
+                 if op.get('lazy_set_y') is not None})
   remap = {s: i for i, s in enumerate(used)}
   d['series'] = [d['series'][s] for s in used]
   if 'kinds' in d:
@@ -955,6 +1031,8 @@ def normalize(desc):
   for op in ops:
     if 's' in op:
       op['s'] = remap[op['s']]
+    if op.get('lazy_set_y') is not None:
+      op['lazy_set_y'] = remap[op['lazy_set_y']]
   return d
 
 
@@ -975,6 +1053,10 @@ def simplifications(desc):
     yield d
   # plain containers
   for i, op in enumerate(desc['ops']):
+    if op.get('lazy_set_y') is not None:
+      d = copy.deepcopy(desc)
+      del d['ops'][i]['lazy_set_y']
+      yield d
     if op.get('as') not in (None, 'list'):
       d = copy.deepcopy(desc)
       d['ops'][i]['as'] = 'list'
